@@ -246,7 +246,7 @@ func c05CaPools(w *World, r *Report) {
 	n := 0
 	enumPaths(fn, getCa, isEv, nil, func(e pathExit) {
 		ret, isRet := e.Last.(*ssa.Return)
-		if !isRet {
+		if !isRet || bad != "" {
 			return
 		}
 		if !isConstNil(e.State.Resolve(ret.Results[0])) {
@@ -270,10 +270,18 @@ func c05CaPools(w *World, r *Report) {
 			st := ev.(*ssa.Store)
 			fv := fieldVarOf(st.Addr.(*ssa.FieldAddr))
 			fromPool := false
-			for _, rt := range provenance(st.Val, provOpts{}) {
+			for _, rt := range provenance(e.State.Resolve(st.Val), provOpts{}) {
 				if c, ok := rt.(*ssa.Call); ok && isPkgFunc(sCallee(c), "crypto/x509", "NewCertPool") {
 					fromPool = true
 				}
+			}
+			// the pool must be nothing but the configured CA: every origin of the stored value is an empty
+			// pool created here (not the platform pool, a global or a cached pool)
+			for _, rt := range provenance(st.Val, provOpts{}) {
+				if c, ok := rt.(*ssa.Call); ok && isPkgFunc(sCallee(c), "crypto/x509", "NewCertPool") {
+					continue
+				}
+				bad = fmt.Sprintf("%s: the pool stored into %s can be something other than a fresh empty pool (%s): peers are then verified against more roots than the configured CA", w.Pos(st.Pos()), fv.Name(), rt.String())
 			}
 			if fromPool && fv == root {
 				sawRoot = true
@@ -282,6 +290,9 @@ func c05CaPools(w *World, r *Report) {
 				sawClient = true
 			}
 		}
+		if bad != "" {
+			return
+		}
 		if !sawRoot {
 			bad = "with a CA configured RootCAs is not set: the client would verify servers against the system pool instead of the configured CA"
 		}
@@ -289,6 +300,28 @@ func c05CaPools(w *World, r *Report) {
 			bad = "with a CA configured ClientCAs is not set: client certificates cannot be verified against the configured CA"
 		}
 	})
+	// only the configured CA is added to a pool in this function
+	for _, c := range callsIn(fn) {
+		f := sCallee(c)
+		if f == nil || f.Pkg() == nil || f.Pkg().Path() != "crypto/x509" || recvNamed(f) == nil || recvNamed(f).Obj().Name() != "CertPool" {
+			continue
+		}
+		switch f.Name() {
+		case "AppendCertsFromPEM", "AddCert", "AddCertWithConstraint":
+			okArg := false
+			for _, rt := range provenance(c.Common().Args[1], provOpts{}) {
+				if ex, ok := rt.(*ssa.Extract); ok && ex.Tuple == ssa.Value(getCa) && ex.Index == 0 {
+					okArg = true
+				} else {
+					okArg = false
+					break
+				}
+			}
+			if !okArg {
+				bad = fmt.Sprintf("%s: certificates other than the configured CA are added to the verification pool", w.Pos(c.Pos()))
+			}
+		}
+	}
 	r.Check(bad == "" && n > 0, "R05.3", key, w.Pos(m.Pos()), fmt.Sprintf("%d success path(s) with a CA configured store the pool into RootCAs and ClientCAs", n), bad+mapStr(n == 0, "no success path with a configured CA found"))
 }
 
